@@ -8,7 +8,7 @@ META = {
                    "ConductorError (EXC2); schema tables equal the documented parameters, defaults and the constructors' signatures (SCH1); "
                    "validator decision structure, name check, unique names, primitive args/options (VAL1); include() checks and scope (INC1); "
                    "name grammar (RX1); --check never executes (RUN1); errors become ERROR + non-zero exit (CLI1).",
-    "rules": ["EXC1", "SCP1", "EXC2", "EXC3", "SCH1", "VAL1", "INC1", "RX1", "RUN1", "CLI1"],
+    "rules": ["EXC1", "SCP1", "EXC2", "EXC3", "SCH1", "VAL1", "INC1", "INC2", "RX1", "RUN1", "CLI1"],
     "assumptions": ["completeness of rejection over arbitrary Python values is the input space of exec — not decided", "SystemExit raised by a COND file is out of scope"],
     "trusted": ["ast parser", "call graph incl. the idiom table for COND constructors"],
 }
@@ -21,6 +21,7 @@ def run(A, rep, tier):
     CD.rule_sch1(A, rep)
     CD.rule_val1(A, rep)
     CD.rule_inc1(A, rep)
+    CD.rule_inc2(A, rep)
     m = A.prog.module("task_identifier")
     regs = RX.compiled_regexes(A, m)
     done = False
